@@ -20,3 +20,15 @@ package addr
 //@   property C18
 //@   safe
 //@   modifies pa.URL
+
+// ---- the scheme helpers: behaviour of the two regular expressions on every documented scheme,
+// established by evaluating the real expressions (closed facts), and the variables are never reassigned
+//@ func init
+//@   property C04, C05, C18
+//@   safe
+//@ property C04, C05, C18
+//@ fact !HasTls.MatchString("http") && !HasTls.MatchString("https") && !HasTls.MatchString("ws") && !HasTls.MatchString("wss")    :web_schemes_have_no_tls_suffix
+//@ fact HasTls.MatchString("tcp+tls") && HasTls.MatchString("unix+tls") && HasTls.MatchString("unixpacket+tls") && HasTls.MatchString("stdin+tls") && HasTls.MatchString("stdio+tls")    :tls_suffix_recognised
+//@ fact !HasTls.MatchString("tcp") && !HasTls.MatchString("unix") && !HasTls.MatchString("unixpacket") && !HasTls.MatchString("stdin") && !HasTls.MatchString("stdio")    :plain_schemes_have_no_tls_suffix
+//@ fact PlusEnd.ReplaceAllString("tcp+tls", "") == "tcp" && PlusEnd.ReplaceAllString("unix+tls", "") == "unix" && PlusEnd.ReplaceAllString("unixpacket+tls", "") == "unixpacket"    :suffix_stripped
+//@ fact PlusEnd.ReplaceAllString("tcp", "") == "tcp" && PlusEnd.ReplaceAllString("unix", "") == "unix" && PlusEnd.ReplaceAllString("unixpacket", "") == "unixpacket"    :plain_scheme_unchanged
